@@ -37,6 +37,7 @@ def main():
       if q in inv.get(mname, {}):
         inv[mname][q]['flat'] = inline.flat_form(f)
         inv[mname][q]['loops'] = inline.loop_targets(f)
+        inv[mname][q]['defs'] = inline.def_shapes(f)
   json.dump(inv, open(out, 'w'), indent=0, sort_keys=True)
   inline._INV = None
   print('functions: %d' % sum(len([q for q in v if not q.startswith('__')])
